@@ -48,7 +48,9 @@ def gen_case(rng, P, mode=None, n=None, kind=None, frozen_bias=False):
     case = {'P': P, 'n': n, 'grid_kind': rng.choice(['exponential', 'uniform', 'random']), 'grid_seed': rng.randrange(10 ** 6),
             'phi_seed': rng.randrange(10 ** 6), 'mode': mode, 'kind': kind, 'par': pars, 'theta0': theta0,
             'frozen': frozen, 'nomut': nomut, 't0': rng.choice([0.0, 0.0, 0.3]), 'steps': rng.uniform(0.3, 4.5),
-            'delj': rng.random() < 0.25}
+            'delj': rng.random() < 0.25,
+            # memory layout of the density handed to the driver: C-contiguous, Fortran order, or a transposed view
+            'layout': rng.choice(['C', 'C', 'F', 'T']) if P >= 2 else 'C'}
     if kind == 'frozenmig' and P >= 2:
         k = rng.randrange(P)
         case['frozen'][k] = True
@@ -205,7 +207,14 @@ def run_case(case, tid, keep_out=False):
     out = None
     try:
         try:
-            out = getattr(Integration, FUNCS[P])(phi0.copy(), xx, T, initial_t=t0, **kwargs)
+            lay = case.get('layout', 'C')
+            if lay == 'F':
+                arg = np.asfortranarray(phi0)
+            elif lay == 'T':
+                arg = np.ascontiguousarray(phi0.transpose()).transpose()     # same values, reversed strides
+            else:
+                arg = phi0.copy()
+            out = getattr(Integration, FUNCS[P])(arg, xx, T, initial_t=t0, **kwargs)
             log.add('return', out=rats(np.asarray(out).ravel()))
         except Exception as ex:
             log.add('raise', exc=type(ex).__name__)
@@ -266,7 +275,14 @@ def add_driver_traces(ctx, res, rng, dims, prop, frozen_bias=False):
                         c['par'][a]['mig'][b] = {'c0': 1.5, 'c1': 0.0, 'const': True}
                         c['steps'] = 0.4
                         c['delj'] = False
+                        c['layout'] = 'C'
                         cases.append(c)
+                        if P <= 3 and direction == 0:
+                            # the same with a rate that is zero at the start and switches on later (a function of time)
+                            c2 = copy.deepcopy(c)
+                            c2['mode'] = 'linear'
+                            c2['par'][a]['mig'][b] = {'c0': 0.0, 'c1': 40.0}
+                            cases.append(c2)
     traces = []
     for tid, case in enumerate(cases):
         traces.append(run_case(case, tid))
